@@ -4,6 +4,7 @@ import NibabelModel.Lemmas.C10_Gen
 import NibabelModel.Lemmas.C10_Glue5
 import NibabelModel.Lemmas.C10_FromHdr
 import NibabelModel.Lemmas.C10_Pub
+import NibabelModel.Lemmas.C10_World
 /-! Props/C10 — property theorems for C10 (binary headers are faithful to their bytes, byte order and
     repairs).  Part A: byte codec and record codec over EVERY tiling layout; part B: WrapStruct
     operations; part C: endianness guessing; part D: check batteries; part E: obligations over the
@@ -215,6 +216,82 @@ theorem copy_independent (L : Layout) (s : Heap) (i : Nat) (hi : i < s.length)
     simp [List.getD_eq_getElem?_getD]
 
 example : (0 : Nat) < ([default] : Heap).length := by decide
+
+/-! `copy_independent` above has fresh cells by construction; the statement below is about a state space in
+    which objects CAN share a buffer. -/
+
+/-- `copy()` cannot alias: in ANY world (objects may already share buffers), the copy of object `i` is a new
+    object viewing a buffer NO existing object views; it denotes `copy L (hdr i)` (= `hdr i` by `copy_eq`);
+    any sequence of writes through the copy leaves EVERY existing object as it was, and any sequence of writes
+    through the original leaves the copy as it was made. -/
+theorem copy_fresh_buffer (L : Layout) (w : World) (hw : w.wf) (i : Nat) (hi : i < w.objs.length)
+    (ws : List (String × List Nat)) :
+    let w' := (w.copyObj L i).1
+    let j := (w.copyObj L i).2
+    j ≠ i ∧ (∀ o ∈ w.objs, (w'.objs.getD j default).buf ≠ o.buf) ∧ w'.hdr j = copy L (w.hdr i) ∧
+    (∀ k, k < w.objs.length → (w'.setMany L j ws).hdr k = w.hdr k) ∧
+    (w'.setMany L i ws).hdr j = copy L (w.hdr i) := by
+  intro w' j
+  have hj : j = w.objs.length := rfl
+  have hobj_j : w'.objs.getD j default = ⟨(copy L (w.hdr i)).e, w.bufs.length⟩ := by
+    show (w.objs ++ [_]).getD w.objs.length default = _
+    simp [List.getD_eq_getElem?_getD]
+  have hobj_k : ∀ k, k < w.objs.length → w'.objs.getD k default = w.objs.getD k default := by
+    intro k hk
+    show (w.objs ++ [_]).getD k default = _
+    simp [List.getD_eq_getElem?_getD, List.getElem?_append_left hk]
+  have hbuf_k : ∀ b, b < w.bufs.length → w'.bufs.getD b [] = w.bufs.getD b [] := by
+    intro b hb
+    show (w.bufs ++ [_]).getD b [] = _
+    simp [List.getD_eq_getElem?_getD, List.getElem?_append_left hb]
+  have hmem : ∀ k, k < w.objs.length → (w.objs.getD k default).buf < w.bufs.length := by
+    intro k hk
+    apply hw
+    simp [List.getD_eq_getElem?_getD, hk]
+  have hhdr_k : ∀ k, k < w.objs.length → w'.hdr k = w.hdr k := by
+    intro k hk
+    unfold World.hdr
+    rw [hobj_k k hk, hbuf_k _ (hmem k hk)]
+  have hhdr_j : w'.hdr j = copy L (w.hdr i) := by
+    unfold World.hdr
+    rw [hobj_j]
+    show (⟨_, (w.bufs ++ [(copy L (w.hdr i)).vals]).getD w.bufs.length []⟩ : Hdr) = _
+    have : (w.bufs ++ [(copy L (w.hdr i)).vals]).getD w.bufs.length [] = (copy L (w.hdr i)).vals := by
+      simp [List.getD_eq_getElem?_getD]
+    rw [this]; rfl
+  refine ⟨by omega, ?_, hhdr_j, ?_, ?_⟩
+  · intro o ho
+    rw [hobj_j]
+    have := hw o ho
+    show w.bufs.length ≠ o.buf
+    omega
+  · intro k hk
+    rw [World.setMany_hdr_other L w' j k ws, hhdr_k k hk]
+    rw [hobj_j, hobj_k k hk]
+    have := hmem k hk
+    show (w.objs.getD k default).buf ≠ w.bufs.length
+    omega
+  · rw [World.setMany_hdr_other L w' i j ws, hhdr_j]
+    rw [hobj_j, hobj_k i hi]
+    have := hmem i hi
+    show w.bufs.length ≠ (w.objs.getD i default).buf
+    omega
+
+/-- The state space does allow aliasing: for the variant of `copy()` that hands out a second view of the same
+    `_structarr`, one write through the "copy" changes the original — while the modelled `copy()` does not. -/
+theorem copy_alias_counterexample :
+    let w : World := ⟨[[[1], [2]]], [⟨.le, 0⟩]⟩
+    let L : Layout := ⟨"toy", 2, [⟨"a", 0, 1, 1, .uint⟩, ⟨"b", 1, 1, 1, .uint⟩]⟩
+    (((w.copyObjAlias 0).1.setObj L (w.copyObjAlias 0).2 "a" [9]).hdr 0 ≠ w.hdr 0) ∧
+    (((w.copyObj L 0).1.setObj L (w.copyObj L 0).2 "a" [9]).hdr 0 = w.hdr 0) := by
+  decide
+
+
+example : (⟨[[[1], [2]]], [⟨.le, 0⟩, ⟨.be, 0⟩]⟩ : World).wf ∧
+    (0 : Nat) < (⟨[[[1], [2]]], [⟨.le, 0⟩, ⟨.be, 0⟩]⟩ : World).objs.length := by
+  constructor
+  · intro o ho; simp at ho; rcases ho with rfl | rfl <;> decide
+  · decide
 
 /-! ### C. endianness guessing -/
 
@@ -850,6 +927,135 @@ theorem from_header_preserves (cast : Field → Field → List Nat → List Nat)
 example : provOf Gen.nifti1 true ⟨"descrip", 240, 80, 1, .bytes⟩ = .copied ∧
     provOf Gen.nifti1 true ⟨"eol_check", 8, 1, 4, .int⟩ = .default ∧
     provOf Gen.nifti1 true ⟨"pixdim", 104, 8, 8, .float⟩ = .overwritten := by decide +kernel
+
+/-! #### dtype, shape and zooms: the setter values are computed from the source -/
+
+/-- The values the setters of `from_header` write are COMPUTED FROM THE SOURCE (`fromHeaderG?`); then reading
+    the converted header back gives the source's dtype (same kind and itemsize, found in the TARGET code
+    table, with the matching bitpix), the source's shape, and — for the pixdims — the source's zooms as the
+    copy loop cast them, with qfac untouched. -/
+theorem from_header_preserves_dtype_shape_zooms
+    (cast : Field → Field → List Nat → List Nat) (cs cd : ClsSpec) (Ls Ld : Layout)
+    (src dflt : List (List Nat)) (g : String → List Nat)
+    (hd : dflt.length = Ld.fields.length)
+    (hg : fromHeaderG? cs cd Ls Ld src (copyFs cast Ld Ls.fields src dflt) = some g)
+    (fdt fbp fdim fpix : Field) (h1 : findFs Ld.fields "datatype" = some fdt)
+    (h2 : findFs Ld.fields "bitpix" = some fbp) (h3 : findFs Ld.fields "dim" = some fdim)
+    (h4 : findFs Ld.fields "pixdim" = some fpix)
+    (hdimlen : (getInts Ls src "dim").length = 8) (h7 : (getInts Ls src "dim").getD 0 0 ≤ 7)
+    (hpixlen : (getRaw Ld (copyFs cast Ld Ls.fields src dflt) "pixdim").length = 8)
+    (htab : dtTableOk cd.dtTable = true)
+    (hcodes : ∀ r ∈ cd.dtTable, intFits (fieldW Ld "datatype") r.code ∧
+      intFits (fieldW Ld "bitpix") ((8 * r.isz : Nat) : Int))
+    (hdimw : intFits (fieldW Ld "dim") 7 ∧ intFits (fieldW Ld "dim") 1) :
+    let R := fromHeaderVals cast Ls Ld (!cd.singleMagic.isEmpty) src dflt g
+    let dim := getInts Ls src "dim"
+    let cp := getRaw Ld (copyFs cast Ld Ls.fields src dflt) "pixdim"
+    (∃ rs rd, dtFind cs.dtTable ((getInts Ls src "datatype").getD 0 0) = some rs ∧
+        dtFind cd.dtTable ((getInts Ld R "datatype").getD 0 0) = some rd ∧
+        rd.kind = rs.kind ∧ rd.isz = rs.isz ∧ rs.isz ≠ 0 ∧
+        (getInts Ld R "bitpix").getD 0 0 = ((8 * rs.isz : Nat) : Int)) ∧
+    getShape (getInts Ld R "dim") = getShape dim ∧
+    getZooms (getShape dim).length (getRaw Ld R "pixdim") = srcZooms cd.pixFmt dim cp ∧
+    (getRaw Ld R "pixdim").take 1 = cp.take 1 := by
+  intro R dim cp
+  have hov : (overwrittenSlots (!cd.singleMagic.isEmpty)).Nodup := by
+    cases (!cd.singleMagic.isEmpty) <;> decide
+  have hin : ∀ n ∈ ["datatype", "bitpix", "dim", "pixdim"], n ∈ overwrittenSlots (!cd.singleMagic.isEmpty) := by
+    intro n hn; unfold overwrittenSlots; exact List.mem_append_left _ hn
+  have hlen : (copyFs cast Ld Ls.fields src dflt).length = Ld.fields.length := by
+    rw [copyFs_length]; exact hd
+  obtain ⟨k, bp, hconv, hfit, gdt, gbp, gdim, gpix⟩ := fromHeaderG?_some cs cd Ls Ld src _ g hg
+  have hRdt : getInts Ld R "datatype" = (g "datatype").map (toInt (fieldW Ld "datatype")) :=
+    getInts_setSlots_in Ld _ _ g "datatype" hov (hin _ (by simp)) hlen fdt h1
+  have hRbp : getInts Ld R "bitpix" = (g "bitpix").map (toInt (fieldW Ld "bitpix")) :=
+    getInts_setSlots_in Ld _ _ g "bitpix" hov (hin _ (by simp)) hlen fbp h2
+  have hRdim : getInts Ld R "dim" = (g "dim").map (toInt (fieldW Ld "dim")) :=
+    getInts_setSlots_in Ld _ _ g "dim" hov (hin _ (by simp)) hlen fdim h3
+  have hRpix : getRaw Ld R "pixdim" = g "pixdim" :=
+    getRaw_setSlots_in Ld _ _ g "pixdim" hov (hin _ (by simp)) hlen fpix h4
+  have hsl := getShape_length (getInts Ls src "dim") hdimlen h7
+  have hcpl : cp.length = 8 := hpixlen
+  have ha : ((setShapePix cd.pixFmt (getShape (getInts Ls src "dim")).length cp).take 1).length = 1 := by
+    simp [setShapePix]; omega
+  refine ⟨?_, ?_, ?_, ?_⟩
+  · obtain ⟨rs, hrs, hz, hk, hbp⟩ := convDtype?_some _ _ _ _ _ hconv
+    obtain ⟨rd, hrd, hkind, hisz, hmem⟩ := dtCodeOf_find cd.dtTable htab _ _ _ hk
+    have hc := hcodes rd hmem
+    have hcode : rd.code = k := by
+      simp only [dtFind] at hrd
+      have := List.find?_some hrd
+      simpa using this
+    refine ⟨rs, rd, hrs, ?_, hkind, hisz, hz, ?_⟩
+    · rw [hRdt, gdt]
+      simp only [List.map_cons, List.map_nil, List.getD_cons_zero]
+      rw [toInt_ofInt _ _ (hcode ▸ hc.1)]; exact hrd
+    · rw [hRbp, gbp]
+      simp only [List.map_cons, List.map_nil, List.getD_cons_zero]
+      rw [hbp, toInt_ofInt _ _ (hisz ▸ hc.2)]
+  · rw [hRdim, gdim, List.map_map]
+    have hall : ∀ x ∈ setShapeDim (getShape (getInts Ls src "dim")), intFits (fieldW Ld "dim") x := by
+      intro x hx
+      simp only [setShapeDim, List.mem_cons, List.mem_append, List.mem_replicate] at hx
+      rcases hx with (rfl | hx) | ⟨_, rfl⟩
+      · have := hdimw.1
+        unfold intFits at this ⊢
+        constructor <;> omega
+      · exact (fitsInt_iff _ _).mp (hfit x hx)
+      · exact hdimw.2
+    have hid : (setShapeDim (getShape (getInts Ls src "dim"))).map
+        (toInt (fieldW Ld "dim") ∘ ofInt (fieldW Ld "dim")) = setShapeDim (getShape (getInts Ls src "dim")) := by
+      conv => rhs; rw [← List.map_id (setShapeDim _)]
+      apply List.map_congr_left
+      intro x hx
+      exact toInt_ofInt _ _ (hall x hx)
+    rw [hid, getShape_setShapeDim _ hsl.1 hsl.2]
+  · rw [hRpix, gpix]
+    have hzl : (srcZooms cd.pixFmt (getInts Ls src "dim") cp).length = (getShape (getInts Ls src "dim")).length := by
+      unfold srcZooms
+      split
+      · rename_i h0
+        have : getShape (getInts Ls src "dim") = [0] := by unfold getShape; rw [h0]; rfl
+        rw [this]; rfl
+      · simp only [getZooms, List.length_take, List.length_drop]; omega
+    show getZooms _ (fromHeaderPixG cd.pixFmt (getInts Ls src "dim") cp) = _
+    simp only [fromHeaderPixG, setZoomsPix, getZooms]
+    rw [List.append_assoc, List.drop_left' ha]
+    have hz2 : ((srcZooms cd.pixFmt (getInts Ls src "dim") cp).take (getShape (getInts Ls src "dim")).length).length
+        = (getShape (getInts Ls src "dim")).length := by simp [hzl]
+    rw [List.take_left' hz2, List.take_of_length_le (by omega)]
+  · rw [hRpix, gpix]
+    show (fromHeaderPixG cd.pixFmt (getInts Ls src "dim") cp).take 1 = _
+    simp only [fromHeaderPixG, setZoomsPix]
+    rw [List.append_assoc, List.take_left' ha]
+    simp only [setShapePix]
+    rw [List.take_append_of_le_length (by simp; omega)]; simp [List.take_take]
+
+
+/- non-vacuity: NIfTI-1 -> NIfTI-2 for a 3-D int16 header with zooms (2, 1.5, 3.25) -/
+example :
+    let src := setRaw Gen.nifti1 (setRaw Gen.nifti1 (setRaw Gen.nifti1 (parse Gen.nifti1 .le (List.replicate 348 0))
+      "datatype" [4]) "dim" [3, 5, 6, 7, 1, 1, 1, 1]) "pixdim" [0x3F800000, 0x40000000, 0x3FC00000, 0x40500000, 0, 0, 0, 0]
+    let dflt := parse Gen.nifti2 .le (List.replicate 540 0)
+    let cast : Field → Field → List Nat → List Nat := fun _ _ v => v
+    (fromHeaderG? Gen.nifti1Cls Gen.nifti2Cls Gen.nifti1 Gen.nifti2 src (copyFs cast Gen.nifti2 Gen.nifti1.fields src dflt)).isSome = true ∧
+    dflt.length = Gen.nifti2.fields.length ∧ (getInts Gen.nifti1 src "dim").length = 8 ∧
+    (getRaw Gen.nifti2 (copyFs cast Gen.nifti2 Gen.nifti1.fields src dflt) "pixdim").length = 8 ∧
+    dtTableOk Gen.nifti2Cls.dtTable = true ∧
+    (∀ r ∈ Gen.nifti2Cls.dtTable, intFits (fieldW Gen.nifti2 "datatype") r.code ∧
+      intFits (fieldW Gen.nifti2 "bitpix") ((8 * r.isz : Nat) : Int)) := by
+  decide +kernel
+
+/-- the side conditions of `from_header_preserves_dtype_shape_zooms` that concern the TARGET class hold for every
+    Analyze-family class of the working tree: its layout has datatype / bitpix / dim / pixdim, its code table is
+    consistent, every code and bitpix of the table is representable in its field, 7 and 1 fit a `dim` item -/
+theorem from_header_targets_ok :
+    ∀ c ∈ Gen.classes, c.guess = .bigEndian ∨ c.guess = .ecat ∨ ∃ L, Gen.layoutOf? c.layout = some L ∧
+      (findFs L.fields "datatype").isSome ∧ (findFs L.fields "bitpix").isSome ∧
+      (findFs L.fields "dim").isSome ∧ (findFs L.fields "pixdim").isSome ∧ dtTableOk c.dtTable = true ∧
+      (∀ r ∈ c.dtTable, intFits (fieldW L "datatype") r.code ∧ intFits (fieldW L "bitpix") ((8 * r.isz : Nat) : Int)) ∧
+      intFits (fieldW L "dim") 7 ∧ intFits (fieldW L "dim") 1 := by
+  decide +kernel
 
 /-- Over the regenerated layouts of the Analyze family: every same-named pair of fields is assignable
     (same bytes/numeric class and item count), so between any two classes EVERY same-named field other
